@@ -701,6 +701,15 @@ func c20BuildInputs(r *rand.Rand, thorough bool) []*c20Input {
 		pf := genProgFile(r, 1+r.Intn(3), 40)
 		ins = append(ins, &c20Input{name: fmt.Sprintf("prog%d", i), data: pf.bytes, kind: "prog"})
 	}
+	// at least two progressive files whose mdat carries a 16-byte (largesize) header, of different sizes: the header
+	// variants of the encoders are exercised by several goroutines at once
+	for i, tries := 0, 0; i < 2 && tries < 60; tries++ {
+		pf := genProgFile(r, 1+r.Intn(2), 30)
+		if pf.largeMdat {
+			ins = append(ins, &c20Input{name: fmt.Sprintf("proglarge%d", i), data: pf.bytes, kind: "prog"})
+			i++
+		}
+	}
 	for _, rel := range []string{"mp4/testdata/prog_8s.mp4", "mp4/testdata/bbb5s_aac.isma", "mp4/testdata/multi_sidx_segment.m4s"} {
 		if b, err := os.ReadFile(repoPath(rel)); err == nil && len(b) < 400000 {
 			ins = append(ins, &c20Input{name: filepath.Base(rel), data: b, kind: "any"})
